@@ -79,6 +79,15 @@ let run (toks : string list) (cout : string list) : string =
   | ["qcmpdy"; a; b; c; d] -> sg (q_cmp_dyadic (z_of_string a, z_of_string b) (dy_of c d))
   | ["qfromdy"; a; n] -> str_q (q_from_dyadic (dy_of a n))
   (* ---- dyadics: "d<op> a an b bn ua un" (u = pre-used output) *)
+  | ["dfromd"; _; num; den] ->
+      (* the generator passes the exact value num/den of the double (den a power of two): checked here *)
+      let n = z_of_string num and d = z_of_string den in
+      let k = z_val2 d in
+      if not (Z.eqb d (pow2 k)) then "MODEL-ERROR denominator is not a power of two" else
+      let dy = dy_normalize { da = n; dn = k } in
+      (match q_canon (n, d) with
+       | Some q -> str_dy dy ^ " " ^ str_q q ^ " 1 1"
+       | None -> "MODEL-ERROR")
   | ["dcons"; a; n] -> str_dy (dy_from_int (z_of_string a) (n_of_string n))
   | ["dadd"; a; an; b; bn; u; un] -> four2 dy_add (dy_of a an) (dy_of b bn) (dy_of u un)
   | ["dsub"; a; an; b; bn; u; un] -> four2 dy_sub (dy_of a an) (dy_of b bn) (dy_of u un)
